@@ -621,13 +621,16 @@ class Heap:
     version of each key is recorded in `initial` (shared between all copies so that
     `old(..)` sees the same symbol)."""
 
-    def __init__(self, initial=None, cur=None, tag="H"):
+    def __init__(self, initial=None, cur=None, tag="H", fresh=None):
         self.initial = initial if initial is not None else {}
         self.cur = dict(cur) if cur is not None else {}
         self.tag = tag
+        # ids of the references allocated since function entry (State.new_ref), shared by all copies of this run:
+        # a term built from entry-state symbols only cannot denote one of them (A8)
+        self.fresh = fresh if fresh is not None else set()
 
     def copy(self):
-        return Heap(self.initial, self.cur, self.tag)
+        return Heap(self.initial, self.cur, self.tag, self.fresh)
 
     def get(self, key, sort):
         if key not in self.cur:
@@ -646,7 +649,80 @@ class Heap:
 
     def old(self):
         """Heap as at function entry (shares `initial`)."""
-        return Heap(self.initial, dict(self.initial), self.tag)
+        return Heap(self.initial, dict(self.initial), self.tag, self.fresh)
+
+    def entry_term(self, e, _memo={}):
+        """True if `e` is built only from function parameters and entry-state heap arrays (no fresh reference, no
+        havoc'd or updated array): it denotes something that existed when the function was entered."""
+        k = e.get_id()
+        if k in _memo:
+            return _memo[k]
+        ok = True
+        stack, seen = [e], set()
+        while stack and ok:
+            x = stack.pop()
+            if x.get_id() in seen:
+                continue
+            seen.add(x.get_id())
+            if z3.is_quantifier(x) or z3.is_var(x):
+                ok = False
+            elif z3.is_app(x):
+                d = x.decl()
+                if x.num_args() == 0 and d.kind() == z3.Z3_OP_UNINTERPRETED:
+                    n = d.name()
+                    if x.get_id() in self.fresh or not (n in ENTRY_PARAMS or n.startswith(self.tag + "0_")):
+                        ok = False
+                elif d.kind() not in (z3.Z3_OP_SELECT, z3.Z3_OP_ANUM, z3.Z3_OP_UNINTERPRETED) and x.num_args() > 0:
+                    ok = False
+                elif d.kind() == z3.Z3_OP_UNINTERPRETED and x.num_args() > 0:
+                    ok = False
+                else:
+                    stack.extend(x.children())
+        _memo[k] = ok
+        return ok
+
+    def select(self, arr, idx):
+        """arr[idx], skipping updates at references that were allocated after function entry when idx is an entry-state term"""
+        if self.fresh and self.entry_term(idx):
+            while z3.is_store(arr) and arr.arg(1).get_id() in self.fresh:
+                arr = arr.arg(0)
+        return z3.Select(arr, idx)
+
+
+ENTRY_PARAMS = set()  # names of the constants created for the parameters of the function under verification
+
+
+def register_entry_params(env):
+    """Record the symbolic constants that make up the parameter values (called once per function, at entry)."""
+    ENTRY_PARAMS.clear()
+    Heap.entry_term.__defaults__[0].clear()
+
+    def walk(e):
+        stack, seen = [e], set()
+        while stack:
+            x = stack.pop()
+            if x.get_id() in seen:
+                continue
+            seen.add(x.get_id())
+            if z3.is_app(x):
+                if x.num_args() == 0 and x.decl().kind() == z3.Z3_OP_UNINTERPRETED:
+                    ENTRY_PARAMS.add(x.decl().name())
+                stack.extend(x.children())
+
+    def terms_of(v):
+        if isinstance(v, Val):
+            if isinstance(v.v, tuple):
+                for y in v.v:
+                    if isinstance(y, (Val, tuple, list)):
+                        yield from terms_of(y) if isinstance(y, Val) else (t for z in y for t in terms_of(z))
+                    elif z3.is_expr(y):
+                        yield y
+            elif z3.is_expr(v.v):
+                yield v.v
+
+    for v in env.values():
+        for t in terms_of(v):
+            walk(t)
 
 
 class State:
@@ -686,6 +762,7 @@ class State:
 
     def new_ref(self, prefix="obj"):
         r = z3.Int(fresh_name(prefix))
+        self.heap.fresh.add(r.get_id())
         self.pc.append(z3.Not(z3.Select(self.alloc, r)))
         self.pc.append(r > 0)
         self.alloc = z3.Store(self.alloc, r, z3.BoolVal(True))
